@@ -14,7 +14,7 @@ class ModuleCheck:
     """A property decided by a module specification + its trace specification."""
 
     def __init__(self, module, spec, trace_spec, trace_cfg, clauses, mc, gen, rnd,
-                 scenarios=(), required=(), level_note="", assumptions=(), gen_cfg="", epilogue=True):
+                 scenarios=(), required=(), level_note="", assumptions=(), gen_cfg="", epilogue=True, post=()):
         self.module, self.spec = module, spec
         self.binary = module   # harness/cmd/<binary>
         self.trace_spec, self.trace_cfg = trace_spec, trace_cfg
@@ -24,6 +24,9 @@ class ModuleCheck:
         self.required = list(required)
         self.assumptions = list(assumptions)
         self.gen_cfg = gen_cfg
+        # post hooks: fn(check, pid, tier, seed, work) -> (violations:[(path, text)], coverage:dict);
+        # used by the big-number tier (rows from the real code evaluated by Apalache)
+        self.post = list(post)
 
     # -- steps --------------------------------------------------------------
     def run_mc(self, tier, work, seed):
@@ -230,6 +233,14 @@ class ModuleCheck:
             "model_counterexamples": [{"cfg": c, "property": p} for c, p, _ in cex_traces],
             "samples": vlib.sample_lines(allf, 3),
         })
+        for hook in self.post:
+            pv, pcov = hook(self, pid, tier, seed, work)
+            cov.update(pcov)
+            if pv and not viol:
+                path, text = pv[0]
+                log(text)
+                print(f"VIOLATION property={pid} replay={path}", flush=True)
+                return 1, cov, len(pv)
         if viol:
             path, clause = self.report_violation(pid, allf, viol, seed, tier, self.gen_cfg)
             # reproduce once more from recorded inputs
@@ -251,6 +262,8 @@ class ModuleCheck:
         return 0, cov, 0
 
     def replay(self, pid, path, work, seed, quiet=False):
+        if path.endswith(".bigrows.json") and getattr(self, "big_replay", None):
+            return self.big_replay(self, pid, path, work, seed)
         meta = {}
         if os.path.exists(path + ".meta"):
             meta = json.load(open(path + ".meta"))
